@@ -351,7 +351,7 @@ func (w *c07wsWorld) start(tag string, sc c07wsScript) *c07wsSession {
 		go func() {
 			defer close(s.done)
 			tc := bfe_tls.Server(sEnd, &bfe_tls.Config{})
-			h := bfe_stream.NewProtoHandler(&bfe_stream.Server{ConnectTimeout: 5000, ConnectRetryMax: w.R, BalanceHandler: w.balance})
+			h := bfe_stream.NewProtoHandler(&bfe_stream.Server{ConnectTimeout: 15000, ConnectRetryMax: w.R, BalanceHandler: w.balance})
 			h(s.hs, tc, nil)
 			sEnd.Close()
 		}()
@@ -406,7 +406,7 @@ func (w *c07wsWorld) start(tag string, sc c07wsScript) *c07wsSession {
 			return
 		}
 		rw := bfe_websocket.NewMockResponseWriter(sEnd, brw)
-		h := bfe_websocket.NewProtoHandler(&bfe_websocket.Server{ConnectTimeout: 5000, ConnectRetryMax: w.R, BalanceHandler: w.balance})
+		h := bfe_websocket.NewProtoHandler(&bfe_websocket.Server{ConnectTimeout: 15000, ConnectRetryMax: w.R, BalanceHandler: w.balance})
 		h(s.hs, rw, req)
 		sEnd.Close()
 	}()
@@ -432,7 +432,9 @@ func (w *c07wsWorld) start(tag string, sc c07wsScript) *c07wsSession {
 func (w *c07wsWorld) fail(msg string) {
 	w.mu.Lock()
 	if w.herr == "" {
-		w.herr = msg
+		st := bfe_websocket.GetWebSocketState()
+		w.herr = fmt.Sprintf("%s (process-wide websocket error counters: connect=%d handshake=%d reject=%d proxy=%d balance=%d)", msg,
+			st.WebSocketErrConnect.Get(), st.WebSocketErrHandshake.Get(), st.WebSocketErrBackendReject.Get(), st.WebSocketErrProxy.Get(), st.WebSocketErrBalance.Get())
 	}
 	w.mu.Unlock()
 }
@@ -600,6 +602,11 @@ func c07wsFamilies(t *testing.T, r *vk.Run) {
 	}
 	if st := bfe_websocket.GetWebSocketState(); st.WebSocketPanicConn == nil {
 		st.WebSocketPanicConn = new(metrics.Counter)
+		st.WebSocketErrConnect = new(metrics.Counter)
+		st.WebSocketErrHandshake = new(metrics.Counter)
+		st.WebSocketErrBackendReject = new(metrics.Counter)
+		st.WebSocketErrProxy = new(metrics.Counter)
+		st.WebSocketErrBalance = new(metrics.Counter)
 	}
 	if st := bfe_stream.GetStreamState(); st.StreamPanicConn == nil {
 		st.StreamPanicConn = new(metrics.Counter)
